@@ -44,11 +44,11 @@ add("C18", "exploration",
 
 add("C07", "exploration",
     "property-based testing (proptest) with an instrumented objective function: abscissa recorder + evaluation budget, catalogue of functions with analytically known sign-change roots; Ok/Err classification oracle",
-    "Generated (solver, function, bracket, tolerance, ITP parameter) cases; the function passed to the solver records every abscissa and enforces a hard evaluation budget, so containment, termination and accuracy (distance to a known sign change, or |f|<tol for Brent) are decided per case; invalid inputs must give Err.",
+    "Generated (solver, function, bracket, tolerance, ITP parameter) cases, incl. functions strongly non-linear on the scale of the tolerance; the function passed to the solver records every abscissa and enforces a hard evaluation budget, so containment, termination and accuracy (distance to a known sign change, or |f|<tol for Brent) are decided per case; invalid inputs must give Err.",
     "Exploration only. Root sets of the catalogue are analytic; a 4-ulp slack is allowed on 'inside the closed interval' because bracket ends are recomputed in the harness.",
     "DESIGN.md 4/C07")
 add("C08", "exploration",
-    "property-based testing (proptest): constructed systems A(x-r)+eta*N(x-r) with known root and controlled conditioning, polynomials expanded from separated roots, contraction catalogue; call-count budgets; known-finding signature matching",
+    "property-based testing (proptest): constructed systems A(x-r)+eta*N(x-r) with known root and controlled conditioning, polynomials expanded from separated roots, contraction catalogue incl. under-relaxed (slow) contractions; rotation-shaped and complex-valued systems; call-count budgets; known-finding signature matching",
     "Generated regular problems inside the convergence region by construction (Kantorovich-type cap on the non-linearity; Newton basin radius 0.8 d/(2n-1) for polynomials; Muller triples within 0.1 of the root separation) must return Ok within 2 tol + rounding floor; singular/exhausted classes must give Err or a genuine solution; no panic/NaN; iteration caps respected via call counters.",
     "Exploration only. One recorded finding (K2: secant on singular systems) is matched by signature and reported as KNOWN-FINDING. Wide Muller triples are sanity-checked only (the stopping heuristic can fire by coincidence far from a root).",
     "DESIGN.md 4/C08")
@@ -76,7 +76,7 @@ add("C15", "exploration",
     "DESIGN.md 4/C15")
 add("C16", "exploration",
     "property-based differential testing (proptest) against an independent dense LU solve of the spline equations; direct checks of interpolation, C2 continuity (second derivative recovered from values and slopes), end conditions, cubic/line reproduction, error on invalid input",
-    "Generated knot sets (2-40 knots, spacing ratio up to 50, real and complex ordinates, free and clamped) are compared on every interval at both end knots (from inside) and 8 interior points, values and slopes, with an independently solved reference spline (512 eps K(x); measured margin > 10x).",
+    "Generated knot sets (2-40 knots, spacing ratio up to 50, real and complex ordinates, free and clamped) are compared on every interval at both end knots (from inside) and 8 interior points, values and slopes, with an independently solved reference spline (64 eps (K(x) + g h^2), g the propagated rounding scale of the second derivatives; measured margin > 40x); the polynomial tolerance argument ranges over 10^[-14,0] and must not move the spline, ordinates over 12 decades.",
     "Exploration only. Equal knots are not generated (validity undefined).",
     "DESIGN.md 4/C16")
 
@@ -93,8 +93,8 @@ add("C01", "exploration",
     "DESIGN.md 4/C01")
 add("C02", "exploration",
     "property-based testing (proptest) with exact/reference flows: every consecutive pair of yielded points is compared with the exact solution restarted at the previous point (closed-form flows; 3-stage Gauss-Legendre reference flow for the generic family)",
-    "Generated paths of the six adaptive solvers inside the quantifier's step-cap regime; every accepted step (start-up, multistep, clipped final) must satisfy |y_(n+1) - Phi(t_n,y_n;t_(n+1))| <= 100 tol h (RK, Adams) or 20 tol (BDF) plus a rounding floor.",
-    "Exploration only. The constants 100/20 are 'a fixed modest multiple' with >= 10x measured margin; degradations below that are invisible here (C03 is the sharp instrument).",
+    "Generated paths of the six adaptive solvers inside the quantifier's step-cap regime; every accepted step (start-up, multistep, clipped final) must satisfy |y_(n+1) - Phi(t_n,y_n;t_(n+1))| <= 100 tol h (RK, Adams) or 20 tol (BDF) plus a rounding floor; linear problems also with solutions of size up to 1e3 (the step cap then uses tol divided by the size reached).",
+    "Exploration only. The constants 100/20 are 'a fixed modest multiple' with 3.5x-20x measured margin over 6e4 thorough cases; degradations below that are invisible here (C03 is the sharp instrument).",
     "DESIGN.md 4/C02")
 add("C03", "exploration",
     "property-based differential testing (proptest) against harness-side reference formulas transcribed from the literature (Fehlberg 4(5), Bogacki-Shampine 3(2), classical RK4, AB/AM 2 and 4, BDF 2/6): every yielded point re-derived from the preceding yielded points, policy-independently; fixed-step accept/reject direction",
@@ -108,12 +108,12 @@ add("C04", "exploration",
     "DESIGN.md 4/C04")
 add("C05", "exploration",
     "property-based testing (proptest) with an instrumented derivative: call counter and hard evaluation budget inside the user function turn 'terminates / does not loop / order-appropriate work' into a per-case verdict",
-    "Generated smooth non-stiff problems (incl. solutions at rest) with dt_min <= 1e-6 dt_max: the solve must complete at the ending time within K (T L tol^(-1/p) + T/dt_max) + 400 derivative evaluations (K per method, >= 12x measured margin) and spend at least one evaluation per maximal step.",
+    "Generated smooth non-stiff problems (incl. solutions at rest) with dt_min <= 1e-6 dt_max: the solve must complete at the ending time within K (T L tol^(-1/p) + T/dt_max) + 400 derivative evaluations (K per method, >= 12x measured margin) and spend at least one evaluation per maximal step. Three sharper sub-classes: long relaxations (work held to the integral of max(L (|y-y*|/tol)^(1/p), 1/dt_max) and, once the exact solution has relaxed below tol/1000, to 3x the measured evaluations per maximal step), cap-limited solves (maximum step so small that nothing else limits the step: 3x the measured evaluations per maximal step), complex-valued states (same budget); minimum steps down to 1e-300 of the maximum.",
     "Exploration only. L is the larger of the Lipschitz constant and the forcing frequencies of the generated problem.",
     "DESIGN.md 4/C05")
 add("C06", "fault_enumeration",
     "exhaustive small-scope enumeration of builder-call sequences against a reference model of the builder contract (model-based testing) + fault enumeration: the user derivative fails at every call number k of a fault-free reference run; proptest-generated longer sequences",
-    "Every sequence of up to 4 (quick) / 5 (thorough) builder calls over a 17-symbol alphabet for all 7 builders, static and dynamic, is compared call by call with a reference model (error kinds, min/max adjustment, MissingParameters, dimension misuse), every complete configuration minus one mandatory call (all rotations) must report MissingParameters, and sequences that build are solved; for 10 configurations per solver every fault position k (all k <= 400) must give a bit-identical prefix, exactly one Err(UserError(Marker(k))), then None, no further derivative calls, and the same error from collect_vec.",
+    "Every sequence of up to 4 (quick) / 5 (thorough) builder calls over a 17-symbol alphabet (plus six extended symbols - spans shorter than the step bounds, step bounds longer than the span - appended to complete configurations in every rotation and in the generated sequences) for all 7 builders, static and dynamic, is compared call by call with a reference model (error kinds, min/max adjustment, MissingParameters, dimension misuse), every complete configuration minus one mandatory call (all rotations) must report MissingParameters, and sequences that build are solved; for 10 configurations per solver every fault position k (all k <= 400) must give a bit-identical prefix, exactly one Err(UserError(payload)) carrying the payload (a private error type; for k <= 80 also a boxed library error and a boxed std error), then None, no further derivative calls, and the same error from collect_vec.",
     "The builder alphabet is finite by construction (two values per time, four per step bound); faults beyond call 400 are sampled log-uniformly.",
     "DESIGN.md 4/C06")
 
